@@ -918,11 +918,23 @@ func (f *Frame) pureApply(c *Contract, fn *types.Func, recv Val, args []Val, st 
 		ts = append(ts, t)
 		sorts = append(sorts, t.Sort)
 	}
-	for i, a := range args {
-		if i >= sig.Params().Len() {
+	ignored := map[string]bool{}
+	for _, n := range strings.Fields(c.Opts["ignore"]) {
+		ignored[n] = true
+	}
+	ai := 0
+	for i := 0; i < sig.Params().Len(); i++ {
+		if ignored[sig.Params().At(i).Name()] {
+			if len(args) == sig.Params().Len() {
+				ai++
+			}
+			continue
+		}
+		if ai >= len(args) {
 			break
 		}
-		t := in.freeze(a, sig.Params().At(i).Type(), st, f)
+		t := in.freeze(args[ai], sig.Params().At(i).Type(), st, f)
+		ai++
 		ts = append(ts, t)
 		sorts = append(sorts, t.Sort)
 	}
